@@ -144,7 +144,8 @@ Lemma start_with_ne ws t : start_with ws t = true -> ws <> [].
 Proof. destruct ws; simpl; congruence. Qed.
 
 Lemma is_func_decl_ok ws : exists b, is_func_decl ws = Ok b.
-Proof. unfold is_func_decl. destruct (start_with ws xgo_LPAREN) eqn:E; [|eauto].
+Proof. unfold is_func_decl. generalize (drop_comments ws). clear ws. intros ws. cbv zeta.
+  destruct (start_with ws xgo_LPAREN) eqn:E; [|eauto].
   apply start_with_ne in E. destruct ws as [|w r]; [congruence|]. unfold slice_from. simpl.
   destruct (start_with _ xgo_LBRACE); eauto. Qed.
 
